@@ -64,6 +64,12 @@ def main():
     for f in os.listdir(os.path.join(V, 'replays')):
         if f.endswith('.json'): os.unlink(os.path.join(V, 'replays', f))
     out = os.path.join(V, 'sensitivity', 'results-%s%s.json' % (a.tier, '-seeded' if a.seeded else ''))
+    if a.only and os.path.exists(out):
+        # a partial run updates the stored table instead of replacing it
+        old = json.load(open(out))
+        fresh = set((r['id'], r.get('property')) for r in results)
+        results = [r for r in old if (r['id'], r.get('property')) not in fresh] + results
+        results.sort(key=lambda r: (r['id'], r.get('property') or ''))
     json.dump(results, open(out, 'w'), indent=1)
     print('written', out)
 
